@@ -374,8 +374,10 @@ def eval_eri(model, case):
         if notation == "physicist":
             res = [[[[res[a][c][b][dd] for dd in range(n)] for c in range(n)] for b in range(n)] for a in range(n)]
         dm = [[float(res[a][b][a][b]) for b in range(n)] for a in range(n)]
-        d = compare(G, res, tol_fn=lambda idx: 1e-6 * (abs(dm[idx[0]][idx[1]]) * abs(dm[idx[2]][idx[3]])) ** 0.5
-                    + 1e-300)
+        # the runner rounds individual terms to multiples of 2^-400 (fapx): a Schwarz factor below ~1e-110 is not
+        # resolved by the model, so the scale is floored there (only loosens elements below ~1e-55 of the diagonal)
+        d = compare(G, res, tol_fn=lambda idx: 1e-6 * (max(abs(dm[idx[0]][idx[1]]), 1e-110)
+                                                       * max(abs(dm[idx[2]][idx[3]]), 1e-110)) ** 0.5)
         if d:
             d["matrix"] = "eri (elementwise vs exact model, C04 tolerance 1e-6 * Schwarz scale)"
             return fail(d)
